@@ -366,7 +366,7 @@ package models
 //@     && (forall id: uint32 :: id in s.entities && !(s.entities[id].ParticipantID in s.participants) ==> s.entities[id].Persist)
 //@     && (forall p: uint32, e: uint32 :: p in s.participants && e in s.participants[p].entityIDs && e in s.entities ==> s.entities[e].ParticipantID == p)
 //@     && (forall p1: uint32, p2: uint32 :: p1 in s.participants && p2 in s.participants && p1 != p2 && s.participants[p1].entityIDs != nil ==> s.participants[p1].entityIDs != s.participants[p2].entityIDs)
-//@ spec fn wfFrames(s *Session) bool = s.frameHandlers != nil && wfGen(s.frameHandlerIDs)
+//@ spec fn wfFrames(s *Session) bool = s.frameHandlers != nil && wfGen(s.frameHandlerIDs) && (forall k: uint32 :: k in s.frameHandlers ==> live(s.frameHandlerIDs, k))
 //@ spec fn wfSession(s *Session) bool = wfParts(s) && wfEnts(s) && s.entityComponents != nil && wfStore(s.entityComponents) && wfIDs(s) && wfOwnership(s) && wfFrames(s)
 
 // ---------------------------------------------------------------------------------------------
@@ -460,9 +460,12 @@ package models
 
 //@ func (*models.Session).Close
 //@   property C07
+//@   event
 //@   assume_nonblocking closeFrameChan has capacity 1 and is sent to at most once (inside closeOnce.Do)
 //@   modifies s.closeOnce
 //@   ensures once_done(s.closeOnce)
+// the stop signal for the frame worker is sent exactly when the session is closed for the first time
+//@   emits {C07} [when !once_done(s.closeOnce) =>> chansend(s.closeFrameChan, _)]
 
 //@ func (*models.SessionStore).Remove
 //@   property C07, C10
